@@ -2,8 +2,12 @@
 
 PROPS = {
     "C03": {
+        "level_text": "The PlusCal model of the runtime core + mutex (spec/core/FiberCore.tmpl) is model-checked exhaustively by TLC for 2 kernel threads / 2 fibers (mutual exclusion, one hand-off per unlock, no fiber blocked at quiescence) and every recorded execution of the real fiber_mutex_* code under seeded controlled schedules (2-3 kernel threads, 2-3 fibers, lock/trylock/unlock) is validated by TLC as a behaviour of that spec, with an API-level AtomicLock monitor evaluated on the call/return history.",
         "mc": {"quick": ["core_mutex2"], "thorough": ["core_mutex2", "core_mutex3"]},
         "scenarios": {"quick": ["core_mutex2", "mutex_t3"], "thorough": ["core_mutex2", "mutex_t3", "mutex_try"]},
         "seeds": {"quick": 40, "thorough": 500},
     },
 }
+
+ALL = ["C%02d" % i for i in range(1, 21)]
+NOT_CLAIMED = {p: "check not yet built in this revision of /verif (model-based check under construction; see DESIGN.md section 10)" for p in ALL if p not in PROPS}
